@@ -290,6 +290,83 @@ fn exec_truncated(t: &mut Tape, st: &mut Stats) -> Result<(), String> {
     Ok(())
 }
 
+/// Stage 'interim': one to three bare 100 responses arrive before the final one (a server may send several interim
+/// responses). With Expect the first is skipped; any further one is handed out as a response on which the flow cannot
+/// advance, so the caller asks again. The verdict must be that of the exchange: request version, request Connection and the
+/// FINAL response's Connection field.
+fn exec_interim(t: &mut Tape, st: &mut Stats) -> Result<(), String> {
+    use ureq_proto::client::flow::RecvResponseResult;
+    let k = 1 + t.below(3);
+    let with_expect = t.below(2) == 1;
+    let req_v10 = t.below(2) == 1;
+    let req_close = t.below(2) == 1;
+    let resp_conn = t.below(3); // 0 absent, 1 close, 2 keep-alive
+    let status = [200u16, 404, 301][t.below(3)];
+    let one_piece = t.below(2) == 1;
+    st.evals(1);
+    let mut extra: Vec<(&str, &str)> = vec![];
+    if with_expect {
+        extra.push(("expect", "100-continue"));
+    }
+    if req_close {
+        extra.push(("connection", "close"));
+    }
+    let method = if with_expect { Method::POST } else { Method::GET };
+    let mut f = crate::drive::recv::flow_recv(&method, req_v10, &extra)?;
+    let mut server: Vec<u8> = vec![];
+    for _ in 0..k {
+        server.extend_from_slice(b"HTTP/1.1 100 Continue\r\n\r\n");
+    }
+    let conn = match resp_conn {
+        1 => "Connection: close\r\n",
+        2 => "Connection: keep-alive\r\n",
+        _ => "",
+    };
+    let loc = if status == 301 { "Location: /n\r\n" } else { "" };
+    server.extend_from_slice(format!("HTTP/1.1 {} F\r\n{}{}Content-Length: 0\r\n\r\n", status, conn, loc).as_bytes());
+    let what = format!("{} interim 100(s), expect = {}, request 1.{} close = {}, final {} with Connection {:?}", k, with_expect, if req_v10 { 0 } else { 1 }, req_close, status, conn.trim());
+    st.describe(|| json!({"stage": "interim", "case": what}));
+    // the caller re-presents unconsumed bytes and asks until the flow can advance
+    let mut consumed = 0usize;
+    let mut arrived = if one_piece { server.len() } else { 0 };
+    let mut handed_out = 0;
+    let mut guard = 0;
+    while !f.can_proceed() {
+        guard += 1;
+        if guard > 400 {
+            return Err(format!("{}: the final response is never accepted", what));
+        }
+        if !one_piece {
+            arrived = (arrived + 7).min(server.len());
+            // a 3xx head is not cut inside known finding K1's window (after its Location line): it arrives whole
+            if status == 301 && arrived > 25 * k {
+                arrived = server.len();
+            }
+        }
+        let (n, r) = f.try_response(&server[consumed..arrived]).map_err(|e| format!("{}: try_response: {:?}", what, e))?;
+        consumed += n;
+        if r.is_some() {
+            handed_out += 1;
+        }
+    }
+    if consumed != server.len() {
+        return Err(format!("{}: {} of {} server bytes consumed", what, consumed, server.len()));
+    }
+    let _ = handed_out;
+    let want_close = req_v10 || req_close || resp_conn == 1;
+    let (mc, reason) = match f.proceed().ok_or("cannot proceed")? {
+        RecvResponseResult::Redirect(r) => (r.must_close_connection(), r.close_reason()),
+        RecvResponseResult::Cleanup(c) => (c.must_close_connection(), c.close_reason()),
+        RecvResponseResult::RecvBody(_) => return Err(format!("{}: body state for Content-Length: 0", what)),
+    };
+    if mc != want_close || reason.is_some() != want_close {
+        return Err(format!("{}: must_close_connection() = {} (reason {:?}), the close conditions say {}", what, mc, reason, want_close));
+    }
+    st.class("interim_responses");
+    st.count_nontrivial(1);
+    Ok(())
+}
+
 fn exec_random(t: &mut Tape, st: &mut Stats) -> Result<(), String> {
     let spec = gen_exchange(t, true);
     st.describe(|| spec_json(&spec));
@@ -308,8 +385,9 @@ status {200, 204, 304, 301 + Location, 404, 500, 101} x framing {Content-Length 
 {absent, close, keep-alive, [keep-alive, close], [close, keep-alive], upgrade} = 145152 cells (invalid method/version pairs and chunked \
 on HTTP/1.0 skipped and counted), each run to Redirect and/or Cleanup. enumeration 'truncated': 3xx heads with a Connection field {none, keep-alive before / after Location, upgrade, close} \
 and a further field, cut after the Location line / before the empty line / inside a later line / one byte short (360 cells): \
-whenever the flow hands out a response for such a strict prefix (known finding K1) the verdict must be must-close. random \
-'decorated': C01's exchange generator under generated schedules. Oracle: must_close_connection() <=> disjunction of the five conditions evaluated on the cell; Redirect and the Cleanup state \
+whenever the flow hands out a response for such a strict prefix (known finding K1) the verdict must be must-close. enumeration 'interim' (432 cells): \
+1..3 bare 100 responses before the final one, with and without Expect, in one piece or in 7-byte steps; the caller asks until the \
+flow can advance; the verdict must be that of the final response. random 'decorated': C01's exchange generator under generated schedules. Oracle: must_close_connection() <=> disjunction of the five conditions evaluated on the cell; Redirect and the Cleanup state \
 after it agree; close_reason() is Some <=> must-close; its text, classified by keyword (1.0 / client / server / 100 / delimited), names a \
 condition that holds (unclassifiable text is counted, not failed); plus the complete ground-truth check of the exchange; a redirect with a Location is followed and the second hop's verdict is \
 checked the same way (the request-side conditions travel with the request). non-trivial = \
@@ -323,6 +401,13 @@ checked the same way (the request-side conditions travel with the request). non-
             tape: |_, idx| radix(idx, &BASES),
             exhaustive: true,
             exec: None,
+        },
+        EnumDef {
+            name: "interim",
+            count: |_t: Tier| 3 * 2 * 2 * 2 * 3 * 3 * 2,
+            tape: |_, idx| radix(idx, &[3, 2, 2, 2, 3, 3, 2]),
+            exhaustive: true,
+            exec: Some(exec_interim),
         },
         EnumDef {
             name: "truncated",
